@@ -179,6 +179,52 @@ func runC19(c *h.Ctx) {
 			}
 		}
 	}
+	// 3b. a length-prefixed string INSIDE a longer message: the result depends on the prefix and the announced bytes only,
+	// whatever follows and however much of it (trailing lengths around 2^8 and 2^16: conversions of the remaining length)
+	for _, bl := range []int{0, 1, 2, 63, 64, 127, 128, 200, 254, 255} {
+		body := rnd(c, bl)
+		for _, trail := range []int{0, 1, 2, 7, 8, 254, 255, 256, 257, 300, 511, 512, 65535, 65536, 65537, 70000} {
+			if !c.Thorough() && trail > 600 && bl%64 != 0 && bl != 255 {
+				continue
+			}
+			tr := rnd(c, trail)
+			u8 := cat([]byte{byte(bl)}, body, tr)
+			doConsumeUint8Bytes(c, "u8bytes:inside-longer-message", u8)
+			got, n := quicwire.ConsumeUint8Bytes(u8)
+			if n != 1+bl || !bytes.Equal(got, body) {
+				c.Violation("ConsumeUint8Bytes returns exactly the announced bytes of a complete string, whatever follows it", map[string]any{"declared": bl, "trailing": trail, "n": n})
+			}
+			vb := cat(quicwire.AppendVarint(nil, uint64(bl)), body, tr)
+			doConsumeVarintBytes(c, "vbytes:inside-longer-message", vb, uint64(bl), bl+trail)
+			got, n = quicwire.ConsumeVarintBytes(vb)
+			if n != len(vb)-trail || !bytes.Equal(got, body) {
+				c.Violation("ConsumeVarintBytes returns exactly the announced bytes of a complete string, whatever follows it", map[string]any{"declared": bl, "trailing": trail, "n": n})
+			}
+		}
+	}
+	// every varint form decoded from its exact bytes and from the same bytes followed by 1..9 more: same value, same length
+	for _, v := range []uint64{0, 1, 63, 64, 16383, 16384, 1 << 20, 1<<26 - 1, 1 << 26, 1<<26 + 5, 1 << 29, 1<<30 - 1, 1 << 30, 1 << 40, 1<<62 - 1} {
+		for _, w := range []int{1, 2, 4, 8} {
+			if v >= 1<<(uint(8*w)-2) {
+				continue
+			}
+			enc := make([]byte, w)
+			for i, x := 0, v; i < w; i++ {
+				enc[w-1-i] = byte(x)
+				x >>= 8
+			}
+			enc[0] |= map[int]byte{1: 0, 2: 0x40, 4: 0x80, 8: 0xc0}[w]
+			v0, n0 := quicwire.ConsumeVarint(enc)
+			for extra := 0; extra <= 9; extra++ {
+				in := cat(enc, rnd(c, extra))
+				doConsume(c, "dec:followed-by-more-bytes", in)
+				v1, n1 := quicwire.ConsumeVarint(in)
+				if v0 != v || n0 != w || v1 != v || n1 != w {
+					c.Violation("the decoded value depends only on the announced bytes, not on how many bytes follow", map[string]any{"value": v, "width": w, "extra": extra, "got": v1, "n": n1})
+				}
+			}
+		}
+	}
 	// 4. fixed-width integers ----------------------------------------------------------------------
 	for l := 0; l <= 10; l++ {
 		for i := 0; i < 6; i++ {
